@@ -1,3 +1,3 @@
 From Coq Require Import ExtrOcamlBasic.
-From PTK Require Import Lib.Sx Model.Document Model.C02_DocQueries.
+From PTK Require Import Lib.Sx Model.Document Model.C02_DocQueries Model.C02_Run.
 Extraction "c02_model.ml" run_C02.
